@@ -6,11 +6,52 @@ ROOT = os.path.dirname(os.path.dirname(os.path.abspath(__file__)))
 props = [json.loads(l) for l in open(os.path.join(ROOT, "properties.jsonl"))]
 
 # id -> (level, design_ref, technique, level text, level note)
+PBT = "property-based testing (proptest, generated inputs with shrinking; explicit oracle)"
 CLAIMED = {
+ "C01": ("exploration", "DESIGN.md section 3 C01",
+         PBT + ": stateful histories of agent runs against a reference Junos model; oracles = model state vs evaluated sets, read-back round trip through the agent's own reader, idempotence",
+         "Generated histories (1..8 runs, 1..4 policies, names with XML metacharacters, evaluated sets from pools incl. empty families/policies) drive the agent's real session, readers, compare, payload writer and load/commit sequence over an in-memory transport against a fake Junos whose ephemeral database is a reference model. After every successful run: installed == evaluated per family, nothing unmanaged installed, the agent reads its own state back identically, a repeated run changes nothing. Sampled exploration with shrinking; high confidence, not a proof.",
+         "Trusts the reference model of Junos merge semantics and get-config shapes (from the repository's fixtures); IRR evaluation replaced by a generated function in this part (the evaluator itself is C11's subject)."),
+ "C02": ("exploration", "DESIGN.md section 3 C02",
+         PBT + ": same histories; oracle = model invariant after every single update / every prefix / reverse order plus a first-match policy evaluator on representative routes",
+         "Every update the agent emits is applied alone, as every prefix of the emitted sequence and in reverse order to the fetched state in the reference model; each touched policy must accept only inside the evaluated set (entry level and route level on boundary representatives), each accepting term is bound to one family with at least one route-filter, the policy ends in reject, and the payload contains only policy-statement paths of the opened ephemeral instance.",
+         "Union of a term's ranges is an upper bound of Junos' longest-match route-filter lookup; Junos semantics modelled."),
+ "C03": ("exploration", "DESIGN.md section 3 C03",
+         PBT + ": same histories with failing evaluations and malformed annotations; oracle = no payload names the policy and its model state is unchanged",
+         "Generated subsets of managed policies fail to evaluate or carry a malformed annotation while installed; the check asserts that no update/delete names them, that their installed state is unchanged after the run, and that every delete names an installed policy that is not marked. One known finding (malformed annotation => delete) is listed and reported as KNOWN-FINDING.",
+         "As C01. The IRR-side failure modes (unknown as-set, error responses, unreachable) are exercised by the engine-B part when present."),
+ "C05": ("exploration", "DESIGN.md section 3 C05",
+         PBT + ": generated schedules on a harness-owned single-threaded executor (schedule = generated value; wakers honoured; quiescence = deterministic deadlock verdict); oracle = tag echo per message-id, id freshness, all resolved at quiescence",
+         "The real Session over an in-memory transport is driven by an executor whose every step (poll a woken task, release the next reply in a generated permutation, inject a stray reply, let one gated send through) is chosen by a generated schedule; reply futures live in separate tasks, joined groups or sequential groups. Checks fresh message-ids, that each caller gets the reply tagged for its id, nobody waits forever, strays are never delivered, and a further request still works.",
+         "Single OS thread: all poll-level interleavings reachable, races inside tokio::sync::Mutex itself are not. Requests are issued by one task (rpc takes &mut self)."),
  "C08": ("exploration", "DESIGN.md section 3 C08",
-         "property-based testing (proptest): grammar-generated rpc-reply documents against a session over an in-memory transport; oracle = document content vs. result; bounded-exhaustive enumeration of all child sequences of length <= 3",
-         "Generated-input search over the reply grammar of every operation (EmptyReply, DataReply, BareReply, load-configuration results): any number/order/severity of rpc-error combined with any positive indication at every grammar position. All child sequences up to length 3 are enumerated completely, longer ones sampled (quick 3e5, thorough 1e7 documents). Establishes the property for the enumerated sub-space and gives high confidence beyond it; it is not a proof.",
-         "Trusts: the harness's XML renderer (cross-checked by the harness's own strict parser), the Debug rendering of rpc::Error as the comparison medium, tokio::sync::Mutex. Reply values contain no XML metacharacters (C13's subject)."),
+         PBT + ": grammar-generated rpc-reply documents for every operation over an in-memory session; bounded-exhaustive enumeration of all child sequences of length <= 3; oracle = document content vs result",
+         "Generated-input search over the reply grammar of every operation (EmptyReply, DataReply, BareReply, load-configuration results): any number/order/severity of rpc-error combined with any positive indication at every grammar position. All child sequences up to length 3 are enumerated completely, longer ones sampled. Establishes the property for the enumerated sub-space and gives high confidence beyond it; not a proof.",
+         "Trusts the harness's XML renderer (cross-checked by its own strict parser) and the Debug rendering of rpc::Error as comparison medium. Values contain no XML metacharacters (C13's subject)."),
+ "C09": ("exploration", "DESIGN.md section 3 C09",
+         PBT + ": (capability set, request) pairs; oracle = table transcribed from RFC 6241 section 8 / ietf-netconf.yang if-feature statements, evaluated on the bytes on the wire and on the caller's request",
+         "Every operation with every combination of its builder calls against minimal / minimal-minus-one / superset / random capability sets (10 capabilities x 2^5 URL schemes x base:1.1). Wire direction: whatever reached the transport requires only advertised capabilities. Converse: a request within the advertised capabilities is sent as exactly one message.",
+         "The RFC table is transcribed by hand. Default-valued explicit parameters are accepted either way; semantically invalid requests are judged in the wire direction only."),
+ "C10": ("exploration", "DESIGN.md section 3 C10",
+         PBT + ": adversarial parameter values for every operation; oracle = the harness's own strict XML 1.0 parser + value recovery at the protocol-defined location + delimiter count",
+         "Every text parameter of every operation (tokens, log messages, instance names, XPath, URLs, text/JSON/set configuration) is generated from XML metacharacters, quotes, the delimiter and its prefixes, CDATA/comment openers, entity look-alikes, non-ASCII, empty, up to 4 KiB; fragments are generated well-formed trees. The captured bytes must be one well-formed document plus exactly one delimiter and every value must be recovered unchanged. Every request the fake Junos receives in other checks is parsed by the same strict parser.",
+         "Well-formed, not namespace-valid. Values are XML Chars without CR (attribute values also without TAB/LF)."),
+ "C12": ("exploration", "DESIGN.md section 3 C12",
+         PBT + ": generated server hellos x both orders of the hello exchange; oracle = the establishment predicate evaluated against the capabilities the client itself put on the wire",
+         "Hello matrix over base versions, capability subsets, unknown URIs, session-id forms (valid, 2^32-1, leading zeros, 0, 2^32, negative, empty, non-numeric, missing, duplicated), capabilities element once/missing/twice, child order, prefix/default namespace, malformed documents, and both orders of the exchange (send gate). Established iff the property's predicate; version, session-id and capability set compared. One known finding listed.",
+         "The framing half (real TLS transport against a conforming chunked-framing server) is part of the transport engine."),
+ "C13": ("exploration", "DESIGN.md section 3 C13",
+         PBT + ": metamorphic - one abstract message tree rendered in two generated styles must give the same outcome; failures are attributed to single rewrites and single elements by re-rendering the canonical style with exactly one rewrite",
+         "Hello, every rpc-reply type and the Junos configuration grammars, each rendered in two styles composed of: prefix vs default namespace, inter-element whitespace, whitespace around token text, comments inside and around the root, attribute order, quote character, XML declaration, both empty-element forms, whitespace before the delimiter. Outcome = Ok(Debug of value) / RpcError(list) / error class. Known findings (container elements written as empty-element tags) are listed with signature reader:rewrite:element.",
+         "Comments only between elements; whitespace only around token-valued text; errors compared as a class."),
+ "C14": ("exploration", "DESIGN.md section 3 C14",
+         PBT + " and coverage-guided fuzzing (cargo-fuzz/libFuzzer targets over the same entry function): mutated valid messages and raw bytes; oracle = call returns, no panic/overflow, no unresolved future, other request's reply still delivered",
+         "Valid hellos/replies from the grammars damaged by generated mutation sequences (truncate, delete, flip, insert markup, duplicate element, absurd numbers, invalid UTF-8, 11000-deep nesting, splice, wrong namespace, missing/doubled delimiter) or replaced by raw bytes, fed through a real session with a second outstanding request whose valid reply arrives afterwards. Builds keep debug assertions and overflow checks.",
+         "Bytes are handed over as one framed message (framing is C06). Non-termination inside one call is caught by the watchdog / libFuzzer -timeout and reported as inconclusive until reproduced."),
+ "C18": ("exploration", "DESIGN.md section 3 C18",
+         PBT + ": C05's schedule-owning executor plus drop actions at generated suspension points; oracle = survivors resolve with their own tag at quiescence and a further request completes",
+         "C05's worlds with 1..2 drops of a waiter task (never polled / polled / polled while a send is pending and the request map is locked). Every surviving request must still resolve with its own reply and the session must stay usable. The confirmed defect (reply lost when the reader is dropped at the request-map lock) was repaired; its minimal schedule is a regression input.",
+         "As C05."),
 }
 
 def hooks_commits():
